@@ -66,7 +66,7 @@ def main():
     legs, violations, inconclusive = [], [], []
     try:
         for target, kind in TARGETS[pid]:
-            n_runs = runs or (300_000 if kind == "text" else 60_000)
+            n_runs = runs or (300_000 if kind == "text" else 8_000)
             max_len = 768 if kind == "text" else 2400
             for bname, bdir in bins.items():
                 cdir = f"{work}/corpus-{target}-{bname}"
